@@ -67,7 +67,7 @@ func (c *Ctx) hget(h *Heap, name string) string {
 				e = fmt.Sprintf("(ite %s %s %s)", h.conds[i], ts[i], e)
 			}
 			t = c.fresh(name+"!m", c.compSortOf(name))
-			c.fact(fmt.Sprintf("(= %s %s)", t, e))
+			c.defFact(fmt.Sprintf("(= %s %s)", t, e))
 		}
 	case 3:
 		if h.keep(name) {
@@ -85,7 +85,7 @@ func (c *Ctx) hget(h *Heap, name string) string {
 func (c *Ctx) hset(h *Heap, name, term string) *Heap {
 	c.heapID++
 	n := c.fresh(name+"!s", c.compSortOf(name))
-	c.fact(fmt.Sprintf("(= %s %s)", n, term))
+	c.defFact(fmt.Sprintf("(= %s %s)", n, term))
 	return &Heap{id: c.heapID, kind: 1, parent: h, name: name, term: n, memo: map[string]string{}}
 }
 
